@@ -167,8 +167,13 @@ def run(ctx, replay_cases=None):
                  [{"kind": "q", "value": "a b"}, {"kind": "w", "value": "c"}, {"kind": "q", "value": "d e"}],
                  [{"kind": "w", "value": "alpha"}, {"kind": "nw", "name": "DAY", "value": "${C11VAR}"}],
                  [{"kind": "nq", "name": "NAME", "value": "x y"}, {"kind": "w", "value": "z"}]]
-        rcases = pl.replay_cases(ptool, ctx, [{"stream": "retrycmd", "gen": "c10", "s": "", "items": it} for it in lists], tag="c10retry")
-        if len(rcases) != len(lists):
+        rin = [{"stream": "retrycmd", "gen": "c10", "s": "", "items": it} for it in lists]
+        # an env: entry whose value differs when the retry loads the DAG file (env: RUNDIR: dir-${C11VAR}): the re-executed
+        # steps must see the recorded value in their process environment
+        rin += [{"stream": "retrycmd", "gen": "c10", "s": "", "items": [{"kind": "w", "value": "p1"}], "envdiff": True},
+                {"stream": "retrycmd", "gen": "c10", "s": "", "items": [{"kind": "q", "value": "a b"}, {"kind": "nw", "name": "N", "value": "${C11VAR}"}], "envdiff": True}]
+        rcases = pl.replay_cases(ptool, ctx, rin, tag="c10retry")
+        if len(rcases) != len(rin):
             ctx.fail("correspondence", "the retry-command cases could not be run (params driver, replay mode)", {"got": len(rcases)})
         for c in rcases:
             r = c11.monitor_retrycmd(c)
